@@ -5,6 +5,9 @@ import SdModel.Gen.Params
 import SdModel.Model.Script
 import SdModel.Model.Codec
 import SdModel.Model.Lev
+import SdModel.Model.UArr
+import SdModel.Model.UMap
+import SdModel.Model.RMap
 
 open Sx
 
@@ -254,6 +257,63 @@ def handleApplyBytes : List Sx → Sx
   | _ => tag "bad-req" []
 end DOrd
 
+
+/-! ## unordered collections -/
+namespace DUn
+
+def uchangeSx : UArr.Change Nat → Sx
+  | .insertMany x n => tag "InsertMany" [ofNat x, ofNat n]
+  | .removeMany x n => tag "RemoveMany" [ofNat x, ofNat n]
+  | .insertFew x n => tag "InsertFew" [ofNat x, ofNat n]
+  | .removeFew x n => tag "RemoveFew" [ofNat x, ofNat n]
+  | .insertSingle x => tag "InsertSingle" [ofNat x]
+  | .removeSingle x => tag "RemoveSingle" [ofNat x]
+
+def udiffSx : UArr.Diff Nat → Sx
+  | .replace l => tag "Replace" [ofNats l]
+  | .modify es => tag "Modify" [.list (es.map uchangeSx)]
+
+def uarr (three : Bool) : List Sx → Sx
+  | p :: c :: rest =>
+    match nats? p, nats? c, (if three then rest.head?.bind nats? else nats? p) with
+    | some p, some c, some b =>
+      let r := UArr.hashcmpA Gen.fewMax p c
+      match r.1 with
+      | none => tag "none" [tag "asserts" [ofBool r.2]]
+      | some d => tag "some" [udiffSx d, tag "asserts" [ofBool r.2], tag "applied" [ofNats (UArr.apply b d)]]
+    | _, _, _ => tag "bad-req" []
+  | _ => tag "bad-req" []
+
+def pairsOf : Sx → Option (List (Nat × Nat))
+  | .list l => l.mapM fun
+    | .list [a, b] => do some ((← nat? a), (← nat? b))
+    | _ => none
+  | _ => none
+
+def pairsSx (l : List (Nat × Nat)) : Sx := .list (l.map fun (a, b) => .list [ofNat a, ofNat b])
+
+def mchangeSx : UMap.Change Nat Nat → Sx
+  | .insertMany k v n => tag "InsertMany" [ofNat k, ofNat v, ofNat n]
+  | .removeMany k n => tag "RemoveMany" [ofNat k, ofNat n]
+  | .insertSingle k v => tag "InsertSingle" [ofNat k, ofNat v]
+  | .removeSingle k => tag "RemoveSingle" [ofNat k]
+
+def mdiffSx : UMap.Diff Nat Nat → Sx
+  | .replace l => tag "Replace" [pairsSx l]
+  | .modify es => tag "Modify" [.list (es.map mchangeSx)]
+
+def umap (three : Bool) : List Sx → Sx
+  | mode :: p :: c :: rest =>
+    match pairsOf p, pairsOf c, (if three then rest.head?.bind pairsOf else pairsOf p) with
+    | some p, some c, some b =>
+      let r := UMap.hashcmpA p c (mode == .atom "ko")
+      match r.1 with
+      | none => tag "none" [tag "asserts" [ofBool r.2]]
+      | some d => tag "some" [mdiffSx d, tag "asserts" [ofBool r.2], tag "applied" [pairsSx (UMap.apply b d)]]
+    | _, _, _ => tag "bad-req" []
+  | _ => tag "bad-req" []
+end DUn
+
 def dispatch (legacy : Bool) (x : Sx) : Sx :=
   match x with
   | .list (.atom "slots" :: rest) => DSlots.handle legacy rest
@@ -263,6 +323,10 @@ def dispatch (legacy : Bool) (x : Sx) : Sx :=
   | .list (.atom "lev-nan" :: rest) => DOrd.handle "lev-nan" rest
   | .list (.atom "hirsch-nan" :: rest) => DOrd.handle "hirsch-nan" rest
   | .list (.atom "enc" :: rest) => DOrd.handleEnc rest
+  | .list (.atom "uarr-cmp" :: rest) => DUn.uarr false rest
+  | .list (.atom "uarr-apply3" :: rest) => DUn.uarr true rest
+  | .list (.atom "umap-cmp" :: rest) => DUn.umap false rest
+  | .list (.atom "umap-apply3" :: rest) => DUn.umap true rest
   | .list (.atom "apply-bytes" :: rest) => DOrd.handleApplyBytes rest
   | _ => tag "bad-req" []
 
